@@ -51,7 +51,7 @@ fn tok_name(t: &T) -> String {
 
 fn coarse_ctx(ctx: &str) -> String {
     // value contexts share one code path: one fingerprint for all of them
-    if VALUE_CONTEXTS.iter().any(|c| c.0 == ctx) && ctx != "font-face" && ctx != "calc" {
+    if VALUE_CONTEXTS.iter().any(|c| c.0 == ctx) && ctx != "font-face" && !ctx.starts_with("calc") {
         "value".to_string()
     } else {
         ctx.to_string()
